@@ -2,6 +2,7 @@ package pbar
 
 import (
 	"io"
+	"math"
 	"sync"
 
 	"github.com/vbauerster/mpb/v8"
@@ -81,6 +82,11 @@ func (b *bar) Done() {
 	}
 	if b.b.IsRunning() {
 		b.b.SetTotal(-1, true)
+		if b.b.IsRunning() {
+			// a bar created with a positive total completes by itself when it reaches the
+			// total, and mpb then ignores SetTotal: move it to its total, or Wait never returns
+			b.b.SetCurrent(math.MaxInt64)
+		}
 		b.b.Wait()
 	}
 }
